@@ -1085,7 +1085,11 @@ class Tensor:
 
         _uniques_bases_then_arrs = ()
 
-        if NP_IS_V2 and any(type(var) in (bool, int, float) for var in input_vars):
+        if (
+            NP_IS_V2
+            and Op.weak_python_scalars
+            and any(type(var) in (bool, int, float) for var in input_vars)
+        ):
             # Python scalars are "weakly" typed in NumPy 2 (NEP 50): they must not
             # promote the dtype of the array/tensor operands they are combined with
             _dtypes = [
